@@ -83,8 +83,9 @@ def _strategy(draw):
         else:
             s, e = _outside(draw, T, where)
             a["start"], a["end"] = s, e
-            if a["type"] == "scaled":
-                # the base asset's window governs the dispatch (the wrapper's window only the fixed cost)
+            if a["type"] == "scaled" and draw(st.booleans()):
+                # documented: start / end of the scaled asset = asset being active; the base asset may carry the same
+                # window or none
                 a["base"]["start"], a["base"]["end"] = s, e
             if a.get("min_take") or a.get("max_take"):
                 a["min_take"] = a["max_take"] = None
@@ -201,7 +202,7 @@ def window_clause(out, spec, r, o, tol):
         lo, hi = rng(a)
         if a["type"] == "scaled":
             blo, bhi = rng(a["base"])
-            lo, hi = blo, bhi     # dispatch follows the base asset's window
+            lo, hi = max(lo, blo), min(hi, bhi)     # active within its own window and that of the base asset
         inside = np.array([lo <= k < hi for k in range(T)])
         for (an, n) in build.asset_node_pairs(a):
             col = build.disp_col(spec, an, n)
